@@ -29,40 +29,26 @@ def _find_fn(tree, qualname):
     return node
 
 
-def loop_body(M, module, qualname, loop_no, args, results, kind=(ast.For, ast.While)):
-    """callable f(**args) -> dict(results) executing ONE iteration body of the loop_no-th loop (document order)
-    of module.qualname.  `args` are the names bound on entry (including the loop variable)."""
-    key = (M.kind, module, qualname, loop_no, tuple(args), tuple(results))
-    if key in _CACHE:
-        return _CACHE[key]
+def _loops(module, qualname, kind=(ast.For, ast.While)):
     path = os.path.join(H.SRC, 'ssh_audit', module + '.py')
     tree = ast.parse(open(path).read())
     fn = _find_fn(tree, qualname)
     loops = [n for n in ast.walk(fn) if isinstance(n, kind)]
     loops.sort(key=lambda n: (n.lineno, n.col_offset))
-    if loop_no >= len(loops):
-        raise Drift('%s has only %d loops' % (qualname, len(loops)))
-    lp = loops[loop_no]
-    body = [s for s in lp.body]
-    ret = ast.Return(value=ast.Dict(keys=[ast.Constant(r) for r in results], values=[ast.Name(id=r, ctx=ast.Load()) for r in results]))
-    # `continue` / `break` inside a single extracted iteration end the iteration
-    class _CB(ast.NodeTransformer):
-        def visit_Continue(self, node):
-            return ast.copy_location(ret, node)
+    return path, fn, loops
 
-        def visit_Break(self, node):
-            return ast.copy_location(ret, node)
 
-        def visit_For(self, node):
-            return node
+def find_loop(module, qualname, pred):
+    """index (document order) of the first loop of module.qualname whose unparsed source satisfies pred(header_text, body_text)"""
+    _, _, loops = _loops(module, qualname)
+    for i, lp in enumerate(loops):
+        head = ast.unparse(lp.test) if isinstance(lp, ast.While) else (ast.unparse(lp.target) + ' in ' + ast.unparse(lp.iter))
+        if pred(head, '\n'.join(ast.unparse(x) for x in lp.body)):
+            return i
+    raise Drift('no loop of %s matches' % qualname)
 
-        def visit_While(self, node):
-            return node
-    body = [_CB().visit(s) for s in body]
-    f = ast.FunctionDef(name='_extracted', args=ast.arguments(posonlyargs=[], args=[ast.arg(arg=a) for a in args], kwonlyargs=[],
-                                                             kw_defaults=[], defaults=[]), body=body + [ret], decorator_list=[],
-                        type_params=[])
-    mod = ast.Module(body=[f], type_ignores=[])
+
+def _compile(M, module, qualname, mod, path, tag):
     cls = qualname.split('.')[0] if '.' in qualname else None
     if cls:
         # manual private-name mangling (the extracted code is compiled outside the class body)
@@ -78,6 +64,89 @@ def loop_body(M, module, qualname, loop_no, args, results, kind=(ast.For, ast.Wh
     ast.fix_missing_locations(mod)
     g = getattr(M, module).__dict__
     ns = {}
-    exec(compile(mod, path + ':<extracted %s loop %d>' % (qualname, loop_no), 'exec'), g, ns)
+    exec(compile(mod, path + ':<extracted %s %s>' % (qualname, tag), 'exec'), g, ns)
+    return ns
+
+
+def loop_test(M, module, qualname, loop_no, args):
+    """callable f(**args) -> value of the loop condition of the loop_no-th loop (a `while`)"""
+    key = (M.kind, module, qualname, loop_no, tuple(args), 'test')
+    if key in _CACHE:
+        return _CACHE[key]
+    path, fn, loops = _loops(module, qualname)
+    lp = loops[loop_no]
+    if not isinstance(lp, ast.While):
+        raise Drift('loop %d of %s is not a while loop' % (loop_no, qualname))
+    f = ast.FunctionDef(name='_extracted', args=ast.arguments(posonlyargs=[], args=[ast.arg(arg=a) for a in args], kwonlyargs=[], kw_defaults=[], defaults=[]),
+                        body=[ast.Return(value=lp.test)], decorator_list=[], type_params=[])
+    ns = _compile(M, module, qualname, ast.Module(body=[f], type_ignores=[]), path, 'loop %d test' % loop_no)
+    _CACHE[key] = ns['_extracted']
+    return ns['_extracted']
+
+
+def nested_def(M, module, qualname, name):
+    """the function `name` defined inside module.qualname, compiled stand-alone in the module's globals (it must not use the enclosing function's locals)"""
+    key = (M.kind, module, qualname, name, 'nested')
+    if key in _CACHE:
+        return _CACHE[key]
+    path, fn, _ = _loops(module, qualname)
+    defs = [n for n in fn.body if isinstance(n, ast.FunctionDef) and n.name == name]
+    if not defs:
+        raise Drift('%s has no nested function %s' % (qualname, name))
+    ns = _compile(M, module, qualname, ast.Module(body=[defs[0]], type_ignores=[]), path, 'nested ' + name)
+    _CACHE[key] = ns[name]
+    return ns[name]
+
+
+def loop_body(M, module, qualname, loop_no, args, results, kind=(ast.For, ast.While), break_flag=None, replace=None):
+    """callable f(**args) -> dict(results) executing ONE iteration body of the loop_no-th loop (document order)
+    of module.qualname.  `args` are the names bound on entry (including the loop variable).
+    break_flag: name of an extra result that is True when the iteration ended in `break`.
+    replace: {loop index: (callable arg name, [input names], [output names])} - a nested loop replaced by `outs = fn(ins)` (its summary)."""
+    key = (M.kind, module, qualname, loop_no, tuple(args), tuple(results), break_flag, repr(replace))
+    if key in _CACHE:
+        return _CACHE[key]
+    path, fn, loops = _loops(module, qualname, kind)
+    if loop_no >= len(loops):
+        raise Drift('%s has only %d loops' % (qualname, len(loops)))
+    lp = loops[loop_no]
+    body = [s for s in lp.body]
+
+    def mkret(broke):
+        keys = [ast.Constant(r) for r in results]
+        vals = [ast.Name(id=r, ctx=ast.Load()) for r in results]
+        if break_flag:
+            keys.append(ast.Constant(break_flag))
+            vals.append(ast.Constant(broke))
+        return ast.Return(value=ast.Dict(keys=keys, values=vals))
+    ret = mkret(False)
+    repl_nodes = {id(loops[i]): spec for i, spec in (replace or {}).items()}
+
+    # `continue` / `break` inside a single extracted iteration end the iteration
+    class _CB(ast.NodeTransformer):
+        def visit_Continue(self, node):
+            return ast.copy_location(mkret(False), node)
+
+        def visit_Break(self, node):
+            return ast.copy_location(mkret(True), node)
+
+        def _nested(self, node):
+            if id(node) in repl_nodes:
+                fname, ins, outs = repl_nodes[id(node)]
+                call = ast.Call(func=ast.Name(id=fname, ctx=ast.Load()), args=[ast.Name(id=x, ctx=ast.Load()) for x in ins], keywords=[])
+                tgt = ast.Name(id=outs[0], ctx=ast.Store()) if len(outs) == 1 else ast.Tuple(elts=[ast.Name(id=x, ctx=ast.Store()) for x in outs], ctx=ast.Store())
+                return ast.copy_location(ast.Assign(targets=[tgt], value=call), node)
+            return node
+
+        def visit_For(self, node):
+            return self._nested(node)
+
+        def visit_While(self, node):
+            return self._nested(node)
+    body = [_CB().visit(s) for s in body]
+    f = ast.FunctionDef(name='_extracted', args=ast.arguments(posonlyargs=[], args=[ast.arg(arg=a) for a in args], kwonlyargs=[],
+                                                             kw_defaults=[], defaults=[]), body=body + [ret], decorator_list=[],
+                        type_params=[])
+    ns = _compile(M, module, qualname, ast.Module(body=[f], type_ignores=[]), path, 'loop %d' % loop_no)
     _CACHE[key] = ns['_extracted']
     return ns['_extracted']
